@@ -227,6 +227,10 @@ pub mod constants;
 /// Utils.
 pub mod utils;
 
+/// Public entries for the solver-based checks in `/verif`.
+#[cfg(gmsol_verif)]
+pub mod verif_hooks;
+
 /// Events.
 pub mod events;
 
